@@ -2,6 +2,7 @@
 at the return of every public call, what was observed.  The recorder does not judge anything: it
 only encodes observations (scaled integers, exception classes, "arguments unchanged" bits)."""
 import copy
+import json
 import os
 import signal
 import sys
@@ -91,6 +92,7 @@ def run_case(case):
     signal.signal(signal.SIGALRM, _alarm)
     for i, o in enumerate(out["objs"]):
         o.setdefault("implAst", {"op": "none"})
+        o.setdefault("implKnown", False)
         o.setdefault("implPast", {"op": "none"})
     for ev in out["events"]:
         oi = ev["o"]
@@ -105,6 +107,9 @@ def run_case(case):
                     specs[oi] = make_obj(o)
                     specs[oi].parse()
                     o["implAst"] = readback(specs[oi].ast.specs[-1], S, full=("written" in o))
+                    # the AST clause needs the node classes the codec knows; after a refactoring of the node
+                    # classes the clause is skipped (outputs are still compared), it must not raise an alarm
+                    o["implKnown"] = "unknown:" not in json.dumps(o["implAst"])
                 elif a == "pastify":
                     specs[oi].pastify()
                     o["implPast"] = readback(specs[oi].ast.specs[-1], S, full=("written" in o))
